@@ -627,5 +627,18 @@ ITEMS = location_types() + budget_types() + error_types() + [
                     ('collected_events_are_the_node_so_far', 'replay_events@.len() == s0.len() - this.ev.rest().len() && replay_events@.skip(1) =~= s0.subrange(1, s0.len() - this.ev.rest().len())')],
                        decreases='this.ev.rest().len()')},
         canaries=['C05:a_one_entry_mapping_selects_the_variant_by_its_scalar_key_and_the_payload_follows', 'C05:a_plain_name_selects_a_unit_like_variant_and_consumes_exactly_that_scalar']),
+    # ---- which location an error keeps while it unwinds through containers (C16) ----
+    dict(src='src/de_error.rs', path='impl Error/fn location', trusted=True, props=[],
+         ensures=[('the_location_the_error_already_carries', 'r == err_loc(*self)')]),
+    dict(src=D, path='fn attach_alias_locations_if_missing', props=['C16', 'C01'],
+         rewrites=[(r'err\.to_string\(\)', 'error_to_string(&err)', 1, 'R8')],
+         ensures=[('C16:an_error_that_already_names_a_node_keeps_that_location_while_it_unwinds',
+                   '''!(reference_location != Location::UNKNOWN && defined_location != Location::UNKNOWN && reference_location != defined_location)
+                        && err_loc(err) is Some ==> r == err'''),
+                  ('C16:an_error_on_an_aliased_value_reports_the_use_site_and_the_definition_site',
+                   '''reference_location != Location::UNKNOWN && defined_location != Location::UNKNOWN && reference_location != defined_location
+                        ==> r is AliasError && r->AliasError_locations == (Locations { reference_location, defined_location })'''),
+                  ('C16:an_error_without_a_location_stays_the_same_error', 'err_loc(err) is None && !(r is AliasError) ==> error_kind_same(err, r)')],
+         canaries=['C16:an_error_that_already_names_a_node_keeps_that_location_while_it_unwinds']),
 ]
 ITEMS = [x for x in ITEMS if x is not None]
